@@ -72,7 +72,10 @@ def run(ctx):
                        (cls[0], cls[1], 1), (cls[1], cls[0], 1),
                        (cls[1], cls[1], 0)]
         for bs, ks, order in blocks:
-            for subtract in ((True,) if quick else (True, False)):
+            # both settings on one Properties instance (quick: lowest
+            # diagonal block only, where the ground-state shift matters)
+            for subtract in ((True, False) if not quick or bs == ks == cls[0]
+                             else (True,)):
                 t0 = time.time()
                 try:
                     expr = prop.expec_block_contribution(
